@@ -84,7 +84,7 @@ with wf_property (inoneof : bool) (p : property) {struct p} : bool :=
   match p with
   | Property n rq op f =>
       field_ident n && negb (rq && op) &&
-      (if inoneof then negb op && negb (is_repeated f) && negb (str_eqb (snake n) (b "type")) else true) &&
+      (if inoneof then negb (is_repeated f) && negb (str_eqb (snake n) (b "type")) else true) &&
       match f with
       | FArray it | FMap it => wf_item it
       | _ => wf_item f
